@@ -256,6 +256,9 @@ Definition inline_wf (u : ufield) : bool :=
   | KInlineObject fs => forallb sfield_wf fs && nodup_bytes (sp_inline_scope false fs)
   | KInlineOneof fs => forallb sfield_wf fs && nodup_bytes (sp_inline_scope true fs)
   | KInlineEnum os => forallb name_ok os
+  (* inline schemas whose fields are again inline schemas / arrays / maps: modelled and tied to the
+     compiler (KInlineTree), NOT part of the formal quantifier - the acceptance theorems do not cover them *)
+  | KInlineTree _ _ => false
   | _ => true
   end.
 Definition ufield_wf (u : ufield) : bool :=
@@ -266,7 +269,9 @@ Definition ufield_wf (u : ufield) : bool :=
    the inline type <Camel> of an inline field and the values of an inline enum *)
 (* `map:<type>`, or `map:object { .. }` / `map:oneof { .. }` / `map:enum { .. }` of an inline schema *)
 Definition is_inline_kind (u : ufield) : bool :=
-  match uf_kind u with KInlineObject _ => true | KInlineOneof _ => true | KInlineEnum _ => true | _ => false end.
+  match uf_kind u with
+  | KInlineObject _ => true | KInlineOneof _ => true | KInlineEnum _ => true | KInlineTree _ _ => true
+  | _ => false end.
 Definition is_map_kind (u : ufield) : bool :=
   match uf_kind u with KMap _ => true | _ => is_inline_kind u && (uf_container u =? 2) end.
 (* only a singular field has a presence oneof: an optional array / map is a plain repeated field (fix d536c9b) *)
@@ -286,6 +291,7 @@ Definition sp_inline_names (fs : list ufield) : list bytes :=
     | KInlineObject _ => [to_camel (uf_name u)]
     | KInlineOneof _ => [to_camel (uf_name u)]
     | KInlineEnum os => to_camel (uf_name u) :: sp_inline_enum_values (to_camel (uf_name u)) os
+    | KInlineTree k _ => to_camel (uf_name u) :: (if k =? 2 then sp_inline_enum_values (to_camel (uf_name u)) [] else [])
     | _ => [] end) fs.
 Definition sp_field_scope (fs : list ufield) : list bytes :=
   map (fun u => to_snake (uf_name u)) fs
@@ -323,6 +329,7 @@ Definition ref_ok (e : entity) (u : ufield) : bool :=
   | KMap i => item_ref_ok e i
   | KInlineObject fs => forallb (fun s => item_ref_ok e (sf_kind s)) fs
   | KInlineOneof fs => forallb (fun s => item_ref_ok e (sf_kind s)) fs
+  | KInlineTree _ _ => false      (* outside the formal quantifier, see inline_wf *)
   | _ => true
   end.
 
